@@ -388,6 +388,11 @@ def check(repo, res, tier):
     _check_guard(repo, res, cls, compile_fn, tier)
 
     # --------------------------------------------------------------- S4 R-CACHE
+    # by value: every derivative / rate builder activated twice on one model object, before and after the definition changed, must
+    # return the objects of the definition current at that activation (a builder that keeps anything it computed earlier fails)
+    from . import C03 as _C03
+    nb2 = _C03.check_builders(repo, res, None, ((2, 3, 2), (3, 2, 3)), rename={"R-DERIV": "R-CACHE", "R-CAO": "R-CACHE", "R-REFRESH": "R-CACHE"})
+    res.floor("two-generation builder activations", nb2, 24)
     _check_cache(repo, res, cls, regs, gens, D, all_funcs)
 
     # ------------------------------------------------------------- S6 R-PARAMSEQ
